@@ -1,7 +1,10 @@
-(* RtSafety.v — C01 for the linear connective fragment in asynchronous mode:
-     typed_action   : what a typed process does next, and that it stays typed (one case per rule)
-     preservation   : cfg_typed Δ c -> step Async D F c (Run p) = SStep c' -> ∃ Δ' ⊇ Δ, cfg_typed Δ' c'
-     no_error_async : a typed configuration in which nobody uses a closed channel cannot step to SError
+(* RtSafety.v — C01: the run-time typing of configurations is preserved by every step and excludes
+   every run-time error, for every form of the language and the two polarized modes (Async, Sync).
+     typed_action     : what a typed process does next, and that it stays typed (one lemma per rule;
+                        several providers: DUP, or a forward)
+     preservation_md  : cfg_typed Δ c -> step md D F c ch = SStep c' -> ∃ Δ' ⊇ Δ, cfg_typed Δ' c'
+     no_error_md      : a typed configuration in which nobody uses a closed channel cannot step to SError
+     exec_run_safe    : no run reaches RError
    Section hypotheses: `teq_laws D teq` (theorems of spec/TypEq.v) and `funs_typed D F teq` (the
    function table is typed once). *)
 From stdpp Require Import gmap strings.
